@@ -56,7 +56,8 @@ The tree after "repopulate" command may contain polytomies.
 		var identicalgroups [][]string
 		var setgroups bool
 
-		setgroups = cmd.Flags().Changed("id-groups")
+		// "none" is the documented default: giving it explicitly means the same as omitting the option
+		setgroups = groupfile != "none"
 
 		if !setgroups {
 			err = fmt.Errorf("File with groups of identical tips must be provided")
